@@ -21,6 +21,7 @@ parameters); one client reader per attempt.
 | encoding itself is a function of (ciphertext, parameters) | assumed here (hypothesis: any `encode`); C01 / C36 are about the real one | share bytes compared |
 | the helper **reports an already-present file without re-uploading** it | `present_not_reuploaded` (results, no upload helper, no share write, same caps) | counters + storage write calls on the real servers |
 | "already present" only for a file that is present | `present_implies_all_shares` (every one of the N share numbers exists, however many duplicates), `absent_needs_upload` | pre-existing-copy scenarios on twin grids (`presentp` driver line) |
+| … also when the *same helper* placed the file earlier and shares were lost since (no memory) | `present_answer_reflects_current_grid` (every history of placements / losses / queries; + `memory_counterexample`: seeded C44-e) | re-upload scenarios on twin grids with one reused Helper (`hist` driver line; share sets, download) |
 | several clients uploading the same storage index at once; helper crash in the middle of an append; timing | not covered | not covered (one reader per attempt) |
 -/
 namespace Tahoe.C44
@@ -231,6 +232,43 @@ theorem present_implies_all_shares (answers : List (Nat × Nat)) (n : Nat)
   simp only [List.mem_map] at this
   obtain ⟨a, ha, rfl⟩ := this
   exact ⟨a.1, ha⟩
+
+/-- **`present_answer_reflects_current_grid`**: for every history of share placements, share losses and
+queries, a query answered "present" means that *at that moment* every one of the N share numbers is held
+by some server — the answer is a function of the servers' current answers, not of what the helper placed
+earlier. (Stated for the last query of a history; share numbers are below N.) -/
+theorem present_answer_reflects_current_grid (n : Nat) (g0 : List (Nat × Nat)) (h : List GridEvent)
+    (hvalid : ∀ a ∈ gridAfter g0 h, a.2 < n)
+    (hp : presentOf (gridAfter g0 h) (if (gridAfter g0 h).isEmpty then none else some n) = true) :
+    ∀ i, i < n → ∃ srv, (srv, i) ∈ gridAfter g0 h := by
+  by_cases he : (gridAfter g0 h).isEmpty = true
+  · simp [he, presentOf, alreadyPresent] at hp
+  · simp only [he] at hp
+    exact present_implies_all_shares (gridAfter g0 h) n hvalid hp
+
+/-- upload places all 3 shares, a later query says present; share 2 is lost, the next query says not present -/
+example : answersOver 3 [] [.query, .placed 0 0, .placed 1 1, .placed 2 2, .query, .lost 2 2, .query, .placed 0 2, .query]
+    = [false, true, false, true] := by decide
+
+/-- NOT model code: the helper of the seeded change C44-e, which remembers (for 10 minutes) that it placed a
+complete set of shares and then answers from memory -/
+def answersWithMemory (total : Nat) : Bool → List (Nat × Nat) → List GridEvent → List Bool
+  | _, _, [] => []
+  | mem, g, .query :: rest =>
+    let now := presentOf g (if g.isEmpty then none else some total)
+    (mem || now) :: answersWithMemory total (mem || now) g rest
+  | mem, g, e :: rest => answersWithMemory total mem (gridAfter g [e]) rest
+
+/-- it answers "present" after a share was lost although that share number exists nowhere -/
+theorem memory_counterexample :
+    answersWithMemory 3 false [] [.placed 0 0, .placed 1 1, .placed 2 2, .query, .lost 2 2, .query] = [true, true] ∧
+    answersOver 3 [] [.placed 0 0, .placed 1 1, .placed 2 2, .query, .lost 2 2, .query] = [true, false] ∧
+    ¬ ∃ srv, (srv, 2) ∈ gridAfter [] [.placed 0 0, .placed 1 1, .placed 2 2, .query, .lost 2 2, .query] := by
+  refine ⟨by decide, by decide, ?_⟩
+  rintro ⟨srv, h⟩
+  have : gridAfter [] [.placed 0 0, .placed 1 1, .placed 2 2, .query, .lost 2 2, .query] = [(0, 0), (1, 1)] := by decide
+  rw [this] at h
+  simp at h
 
 /-- shares 0 and 1 doubled, share 2 lost: four share files for N = 3, not present; with share 2 back: present -/
 example : presentOf [(0, 0), (1, 0), (1, 1), (2, 1)] (some 3) = false ∧
